@@ -63,6 +63,12 @@ Fixpoint zinsert (z : Z) (l : list Z) : list Z :=
   match l with [] => [z] | x :: r => if (z <=? x)%Z then z :: l else x :: zinsert z r end.
 Definition py_sorted (l : list Z) : list Z := fold_right zinsert [] l.
 Definition zprod (l : list Z) : Z := fold_right Z.mul 1%Z l.
+(* an argument documented as "tuple of ints" for which the source also accepts a bare int *)
+Inductive pyseq := PInt (z : Z) | PSeq (l : list Z).
+(* list(x): TypeError when x is an int *)
+Definition py_list (x : pyseq) : res (list Z) := match x with PSeq l => Ok l | PInt _ => Err end.
+(* try: r  except <the exception r can raise>: h *)
+Definition rcatch {X} (r h : res X) : res X := match r with Ok v => Ok v | Err => h end.
 
 (* ---------- tensorly/base.py ---------- *)
 Section G.
@@ -129,29 +135,36 @@ Definition g_partial_tensor_to_vec (tensor : T) (skip_begin skip_end : Z) : res 
 Definition g_partial_vec_to_tensor (matrix : T) (shape : list Z) (skip_begin skip_end : Z) : res T :=
   g_partial_fold matrix 0%Z shape skip_begin skip_end.
 
-(* row_indices = list(row_modes)   (a bare int is wrapped in a list: done by the caller of the model)
+(* try: row_indices = list(row_modes)
+   except TypeError: row_indices = [row_modes]                      (a bare int stands for the one-element list)
    if column_modes is None: column_indices = [i for i in range(tl.ndim(tensor)) if i not in row_indices]
-   else: column_indices = list(column_modes)
+   else: try: column_indices = list(column_modes)
+         except TypeError: column_indices = [column_modes]
          if sorted(column_indices + row_indices) != list(range(tl.ndim(tensor))): raise ValueError
    row_size = prod(tl.shape(tensor)[i] for i in row_indices); column_size = prod(... for i in column_indices)
    return tl.reshape(tl.transpose(tensor, row_indices + column_indices), (row_size, column_size)) *)
-Definition g_matricize (tensor : T) (row_modes : list Z) (column_modes : option (list Z)) : res T :=
-  let row_indices := row_modes in
+Definition g_matricize (tensor : T) (row_modes : pyseq) (column_modes : option pyseq) : res T :=
+  rbind (rcatch (rbind (py_list row_modes) (fun x1 => let row_indices := x1 in Ok row_indices))
+                (rbind (match row_modes with PInt z => Ok [z] | PSeq _ => Err end) (fun x2 => let row_indices := x2 in Ok row_indices)))
+        (fun row_indices =>
   rbind (match column_modes with
          | None => (let column_indices := filter (fun i => negb (zmemb i row_indices)) (py_range1 (py_ndim B tensor)) in
                     Ok column_indices)
          | Some column_modes =>
-             (let column_indices := column_modes in
+             (rbind (rcatch (rbind (py_list column_modes) (fun x3 => let column_indices := x3 in Ok column_indices))
+                            (rbind (match column_modes with PInt z => Ok [z] | PSeq _ => Err end)
+                                   (fun x4 => let column_indices := x4 in Ok column_indices)))
+                    (fun column_indices =>
               rbind (if negb (zlist_eqb (py_sorted (column_indices ++ row_indices)) (py_range1 (py_ndim B tensor)))
                      then Err else Ok tt) (fun _ =>
-              Ok column_indices))
+              Ok column_indices)))
          end) (fun column_indices =>
-  rbind (rmapM (fun i => py_getitem (py_shape B tensor) i) row_indices) (fun x2 =>
-  let row_size := zprod x2 in
-  rbind (rmapM (fun i => py_getitem (py_shape B tensor) i) column_indices) (fun x4 =>
-  let column_size := zprod x4 in
-  rbind (b_transpose B tensor (row_indices ++ column_indices)) (fun x5 =>
-  b_reshape B x5 [row_size; column_size])))).
+  rbind (rmapM (fun i => py_getitem (py_shape B tensor) i) row_indices) (fun x6 =>
+  let row_size := zprod x6 in
+  rbind (rmapM (fun i => py_getitem (py_shape B tensor) i) column_indices) (fun x8 =>
+  let column_size := zprod x8 in
+  rbind (b_transpose B tensor (row_indices ++ column_indices)) (fun x9 =>
+  b_reshape B x9 [row_size; column_size]))))).
 
 End G.
 
